@@ -1584,7 +1584,14 @@ class Kconfig(object):
                                 self.report.add_record(DefaultValuesArea, sym_or_choice=sym, promptless=True)
                 # If value is supposed to be a default and symbol has a prompt, save it for later
                 elif any(node.prompt is not None for node in sym.nodes):
-                    sym.present_in_current_sdkconfig = True
+                    if sym.choice:
+                        # Whether this line selects is what the line says; the symbol's value at this point
+                        # still comes from the configuration before the load, not from the file.
+                        sym._present_in_current_sdkconfig = True
+                        if val.startswith("y"):
+                            sym.choice.present_in_current_sdkconfig = True
+                    else:
+                        sym.present_in_current_sdkconfig = True
                     if is_main_sdkconfig:
                         sym._sdkconfig_value = val
                         sym._loaded_as_default = True
